@@ -349,17 +349,21 @@ class DictReader:
 
             try:
                 sec = odmlfmt.Section.create(**sec_attrs)
-
-                for prop in sec_props:
-                    sec.append(prop)
-
-                for child_sec in children_secs:
-                    sec.append(child_sec)
-
-                odml_sections.append(sec)
             except Exception as exc:
                 msg = "Section not created (%s)\n  %s" % (sec_attrs, str(exc))
                 self.error(msg)
+                continue
+
+            # A child that cannot be added (e.g. a second one of the same name)
+            # must not cost the Section and its other children.
+            for child in sec_props + children_secs:
+                try:
+                    sec.append(child)
+                except (KeyError, ValueError) as exc:
+                    msg = "%s not added to Section '%s'\n  %s" % (child, sec.name, str(exc))
+                    self.error(msg)
+
+            odml_sections.append(sec)
 
         return odml_sections
 
